@@ -5,3 +5,5 @@ package plonk
 import "github.com/consensys/gnark-crypto/ecc/bls12-381/fr"
 
 func verifBlinding(_, _, _, _ []fr.Element) {}
+
+func verifPostSolve(_, _, _ []fr.Element) {}
